@@ -82,6 +82,10 @@ func PatternFromText(class, text string, metas []MetaDecl) (*Term, error) {
 	switch class {
 	case "expr":
 		e, err := parser.ParseExpr(src)
+		if err != nil && strings.Contains(err.Error(), "mixed named and unnamed") {
+			// an elision in a named parameter list: give the placeholder a name
+			e, err = parser.ParseExpr(namedDotsRe.ReplaceAllString(src, "_ $1$2"))
+		}
 		if err != nil {
 			return nil, err
 		}
@@ -141,6 +145,34 @@ func holes(t *Term, metas map[string]string) *Term {
 				return DotsTerm(strings.TrimPrefix(x.S[1].A, dotsPrefix))
 			}
 		}
+	case "FieldList":
+		// Opening, List, Closing.  "func(..., b int)" parses the placeholder as one more
+		// name of the field b: split such fields into the elision and the remaining names.
+		var out []*Term
+		for _, f := range t.S[1].V {
+			if f.K != "Field" || len(f.S[0].V) < 2 {
+				out = append(out, f)
+				continue
+			}
+			var names []*Term
+			flush := func() {
+				if len(names) > 0 {
+					nf := &Term{K: "Field", S: []*Slot{lslot("Ident", names), f.S[1], f.S[2]}}
+					out = append(out, nf)
+					names = nil
+				}
+			}
+			for _, n := range f.S[0].V {
+				if n.K == "Ident" && strings.HasPrefix(n.S[1].A, dotsPrefix) {
+					flush()
+					out = append(out, DotsTerm(strings.TrimPrefix(n.S[1].A, dotsPrefix)))
+				} else {
+					names = append(names, n)
+				}
+			}
+			flush()
+		}
+		t.S[1].V = out
 	case "ForStmt":
 		// For, Init, Cond, Post, Body
 		if t.S[1].T == "z" && t.S[3].T == "z" && t.S[2].T == "n" {
